@@ -14,13 +14,14 @@ RULE = ('the real HH2ErrorEstimator.estimate and HierarchicalErrorEstimator.esti
         'time-split, space-split and checkerboard functions; time = psi_t + psi_c/2, space = psi_x + psi_c/2; non-negative; 1e-8 relative '
         'plus the propagated rounding floor. Prolongate on really nested meshes: every fine value equals the value of the coarse leaf that '
         'contains it; identity on equal lists. distinct = distinct (curve, mesh, problem, density, path) estimator calls + prolongations')
+RULE += ' ' + 'After the calls on the whole mesh a second, different call is made in the same process (a sub-list of the elements with another density; definition recomputed from the corresponding sub-blocks): the estimators hand their lists to pool workers through module globals.'
 ASSUMPTIONS = [
     'meshes up to ~40 elements (quick) / ~150 (thorough); with initial data the coarse mesh is kept small (each load entry costs ~0.1 s)',
     'rounding floor of a hierarchical indicator (a squared difference): (2|delta| eps + eps^2)/<V psi,psi> with eps = 1e-12*(|<data,psi>| + sum_j |Phi_j||<V 1_j,psi>|)',
 ]
 REQUIRED = {t: ['est:hh2', 'est:hierarchical', 'est:prolongate', 'path:serial', 'path:pool', 'density:random', 'density:galerkin',
                 'data:initial', 'data:dirichlet', 'data:both', 'hh2:vanishes', 'curve:UnitSquare', 'curve:PiSquare', 'curve:LShape', 'curve:Circle',
-                'prolongate:identity', 'prolongate:nested']
+                'prolongate:identity', 'prolongate:nested', 'history:second-call-other-list']
             for t in ('quick', 'thorough')}
 TIMEOUT = {'quick': 1800, 'thorough': 9000}
 CURVES = ['UnitSquare', 'PiSquare', 'LShape', 'Circle']
@@ -151,83 +152,96 @@ def run_est(spec, acc):
             raise
         acc.violation('setup-raised:%s:%s' % (fr[0], type(ex).__name__), '%s/%s: raised %s at %s:%d' % (p, d, type(ex).__name__, fr[1], fr[2]), wit0)
         return
-    Phi_fine = np.linalg.solve(A, rhs)
     real_cpu = mp.cpu_count
-    for dens, Phi in (('galerkin', Phi_gal), ('random', np.array([rng.uniform(-1, 1) for _ in range(N)]))):
-        ext = np.array([Phi[k] for k in parent_of])
-        dvec = Phi_fine - ext
-        want = float(np.sqrt(max(dvec @ (A @ dvec), 0.0)))
-        normPhi = float(np.sqrt(abs(ext @ (A @ ext))))
-        for use_mp in ([False, True] if spec['pool'] else [False]):
-            w = dict(wit0, density=dens, use_mp=use_mp)
-            if use_mp:
-                mp.cpu_count = lambda: 3
+
+    def run_calls(elems, N, fine, nf, parent_of, A, B, rhs, densities, wit0, call):
+        Phi_fine = np.linalg.solve(A, rhs)
+        for dens, Phi in densities:
+            ext = np.array([Phi[k] for k in parent_of])
+            dvec = Phi_fine - ext
+            want = float(np.sqrt(max(dvec @ (A @ dvec), 0.0)))
+            normPhi = float(np.sqrt(abs(ext @ (A @ ext))))
+            for use_mp in ([False, True] if spec['pool'] else [False]):
+                w = dict(wit0, density=dens, use_mp=use_mp)
+                if use_mp:
+                    mp.cpu_count = lambda: 3
+                try:
+                    got = float(HH2ErrorEstimator(SL, M0=M0, g=glin, use_mp=use_mp).estimate(elems, Phi))
+                except Exception as ex:
+                    fr = repo_frame(ex)
+                    if fr is None:
+                        raise
+                    acc.violation('hh2-raised:%s:%s' % (fr[0], type(ex).__name__), '%s/%s: raised %s at %s:%d' % (p, d, type(ex).__name__, fr[1], fr[2]), w)
+                    continue
+                finally:
+                    mp.cpu_count = real_cpu
+                acc.case('%s|%s|%d|hh2|%s|%s' % (p, d, spec['rseed'], dens, use_mp), None)
+                acc.seen('est:hh2')
+                acc.seen('path:' + ('pool' if use_mp else 'serial'))
+                acc.seen('density:' + dens)
+                err = abs(got - want)
+                acc.worst_of('hh2 rel.err', err / max(want, 1e-300))
+                if not (err <= 1e-8 * want + 1e-12 * normPhi) or not np.isfinite(got):
+                    acc.violation('hh2-differs-from-definition', '%s/%s (%s density, use_mp=%r): estimator %.15g, definition %.15g' % (p, d, dens, use_mp, got, want),
+                                  dict(w, computed=got, definition=want))
+            # ---- hierarchical (always uses the pool inside)
+            mp.cpu_count = lambda: 2
             try:
-                got = float(HH2ErrorEstimator(SL, M0=M0, g=glin, use_mp=use_mp).estimate(elems, Phi))
+                H = HierarchicalErrorEstimator(SL, M0=M0, g=glin).estimate(elems, Phi)
             except Exception as ex:
                 fr = repo_frame(ex)
                 if fr is None:
                     raise
-                acc.violation('hh2-raised:%s:%s' % (fr[0], type(ex).__name__), '%s/%s: raised %s at %s:%d' % (p, d, type(ex).__name__, fr[1], fr[2]), w)
+                acc.violation('hierarchical-raised:%s:%s' % (fr[0], type(ex).__name__), '%s/%s: raised %s at %s:%d' % (p, d, type(ex).__name__, fr[1], fr[2]), dict(wit0, density=dens))
                 continue
             finally:
                 mp.cpu_count = real_cpu
-            acc.case('%s|%s|%d|hh2|%s|%s' % (p, d, spec['rseed'], dens, use_mp), None)
-            acc.seen('est:hh2')
-            acc.seen('path:' + ('pool' if use_mp else 'serial'))
-            acc.seen('density:' + dens)
-            err = abs(got - want)
-            acc.worst_of('hh2 rel.err', err / max(want, 1e-300))
-            if not (err <= 1e-8 * want + 1e-12 * normPhi) or not np.isfinite(got):
-                acc.violation('hh2-differs-from-definition', '%s/%s (%s density, use_mp=%r): estimator %.15g, definition %.15g' % (p, d, dens, use_mp, got, want),
-                              dict(w, computed=got, definition=want))
-        # ---- hierarchical (always uses the pool inside)
-        mp.cpu_count = lambda: 2
-        try:
-            H = HierarchicalErrorEstimator(SL, M0=M0, g=glin).estimate(elems, Phi)
-        except Exception as ex:
-            fr = repo_frame(ex)
-            if fr is None:
-                raise
-            acc.violation('hierarchical-raised:%s:%s' % (fr[0], type(ex).__name__), '%s/%s: raised %s at %s:%d' % (p, d, type(ex).__name__, fr[1], fr[2]), dict(wit0, density=dens))
-            continue
-        finally:
-            mp.cpu_count = real_cpu
-        acc.seen('est:hierarchical')
-        acc.seen('path:pool')
-        H = np.asarray(H)
-        if H.shape != (N, 2):
-            acc.violation('hierarchical-shape', 'returned shape %r for %d elements' % (H.shape, N), dict(wit0, density=dens))
-            continue
-        for ci, e in enumerate(elems):
-            r = rect(e)
-            tm, xm = (r[0] + r[1]) / 2, (r[2] + r[3]) / 2
-            q = [k for k in range(nf) if parent_of[k] == ci]
-            if len(q) != 4:
-                raise RuntimeError('quarters')
-            st = np.array([1.0 if fine[k].time_interval[1] <= tm else -1.0 for k in q])
-            sx = np.array([1.0 if fine[k].space_interval[1] <= xm else -1.0 for k in q])
-            vals = []
-            floors = []
-            for psi in (st, sx, st * sx):
-                dpsi = float(np.dot(psi, rhs[q]))
-                vpsi = float(np.dot(psi, B[q] @ Phi))
-                den = float(psi @ (A[np.ix_(q, q)] @ psi))
-                delta = dpsi - vpsi
-                vals.append(delta * delta / den)
-                eps = 1e-12 * (abs(np.dot(np.abs(psi), np.abs(rhs[q]))) + float(np.abs(psi) @ (np.abs(B[q]) @ np.abs(Phi))))
-                floors.append((2 * abs(delta) * eps + eps * eps) / den)
-            want_t, want_x = vals[0] + 0.5 * vals[2], vals[1] + 0.5 * vals[2]
-            fl_t, fl_x = floors[0] + 0.5 * floors[2], floors[1] + 0.5 * floors[2]
-            acc.case('%s|%s|%d|hier|%s|%r' % (p, d, spec['rseed'], dens, r), None)
-            for nm, got, want, fl in (('time', H[ci, 0], want_t, fl_t), ('space', H[ci, 1], want_x, fl_x)):
-                if not (got >= 0):
-                    acc.violation('hierarchical-negative', '%s/%s: %s indicator %r' % (p, d, nm, got), dict(wit0, density=dens, elem=r))
-                err = abs(got - want)
-                acc.worst_of('hierarchical err/(1e-8 rel + floor)', err / (1e-8 * abs(want) + fl + 1e-300))
-                if not (err <= 1e-8 * abs(want) + fl):
-                    acc.violation('hierarchical-differs-from-definition:' + nm,
-                                  '%s/%s: %s indicator of %r: %.15g, definition %.15g' % (p, d, nm, r, got, want), dict(wit0, density=dens, elem=r))
+            acc.seen('est:hierarchical')
+            acc.seen('path:pool')
+            H = np.asarray(H)
+            if H.shape != (N, 2):
+                acc.violation('hierarchical-shape', 'returned shape %r for %d elements' % (H.shape, N), dict(wit0, density=dens))
+                continue
+            for ci, e in enumerate(elems):
+                r = rect(e)
+                tm, xm = (r[0] + r[1]) / 2, (r[2] + r[3]) / 2
+                q = [k for k in range(nf) if parent_of[k] == ci]
+                if len(q) != 4:
+                    raise RuntimeError('quarters')
+                st = np.array([1.0 if fine[k].time_interval[1] <= tm else -1.0 for k in q])
+                sx = np.array([1.0 if fine[k].space_interval[1] <= xm else -1.0 for k in q])
+                vals = []
+                floors = []
+                for psi in (st, sx, st * sx):
+                    dpsi = float(np.dot(psi, rhs[q]))
+                    vpsi = float(np.dot(psi, B[q] @ Phi))
+                    den = float(psi @ (A[np.ix_(q, q)] @ psi))
+                    delta = dpsi - vpsi
+                    vals.append(delta * delta / den)
+                    eps = 1e-12 * (abs(np.dot(np.abs(psi), np.abs(rhs[q]))) + float(np.abs(psi) @ (np.abs(B[q]) @ np.abs(Phi))))
+                    floors.append((2 * abs(delta) * eps + eps * eps) / den)
+                want_t, want_x = vals[0] + 0.5 * vals[2], vals[1] + 0.5 * vals[2]
+                fl_t, fl_x = floors[0] + 0.5 * floors[2], floors[1] + 0.5 * floors[2]
+                acc.case('%s|%s|%d|hier|%s|%r' % (p, d, spec['rseed'], dens, r), None)
+                for nm, got, want, fl in (('time', H[ci, 0], want_t, fl_t), ('space', H[ci, 1], want_x, fl_x)):
+                    if not (got >= 0):
+                        acc.violation('hierarchical-negative', '%s/%s: %s indicator %r' % (p, d, nm, got), dict(wit0, density=dens, elem=r))
+                    err = abs(got - want)
+                    acc.worst_of('hierarchical err/(1e-8 rel + floor)', err / (1e-8 * abs(want) + fl + 1e-300))
+                    if not (err <= 1e-8 * abs(want) + fl):
+                        acc.violation('hierarchical-differs-from-definition:' + nm,
+                                      '%s/%s: %s indicator of %r: %.15g, definition %.15g' % (p, d, nm, r, got, want), dict(wit0, density=dens, elem=r))
+    run_calls(elems, N, fine, nf, parent_of, A, B, rhs, [('galerkin', Phi_gal), ('random', np.array([rng.uniform(-1, 1) for _ in range(N)]))], wit0, 'first')
+    # ---- a second, different call in the same process (the estimators publish their lists to pool workers through module globals):
+    # a sub-list of the elements with another density; the definition is recomputed from the corresponding sub-blocks
+    if N >= 6:
+        sel = sorted(rng.sample(range(N), N - max(2, N // 3)))
+        pos = {c: i for i, c in enumerate(sel)}
+        fsel = [k for k in range(nf) if parent_of[k] in pos]
+        run_calls([elems[c] for c in sel], len(sel), [fine[k] for k in fsel], len(fsel), [pos[parent_of[k]] for k in fsel],
+                  A[np.ix_(fsel, fsel)], B[np.ix_(fsel, sel)], rhs[fsel], [('random-on-sublist', np.array([rng.uniform(-1, 1) for _ in sel]))],
+                  dict(wit0, call='second call in the process, on a sub-list of %d of the %d elements' % (len(sel), N)), 'second')
+        acc.seen('history:second-call-other-list')
     # ---- h-h/2 vanishes when the extension solves the fine problem
     Phi = np.array([rng.uniform(-1, 1) for _ in range(N)])
 
